@@ -26,7 +26,8 @@ package confirm
 //@   ensures[C18] load_error_outcome: each Store.LoadByConfirmSelector(_) -> (_, ?e) => (e != nil && e != ErrUserNotFound) ==> (result == e && !emits Store.Save(_))
 //@
 //@ func (*Confirm).PreventAuth
-//@   property C03 C18
+//@   property C03 C18 C17
+//@   ensures[C17] no_secret_leak: secrets_clean
 //@   -- the login may only continue (false, nil) for a confirmed account
 //@   ensures[C03] veto_unconfirmed: (result.0 == false && result.1 == nil) ==>
 //@       ite(ctxuser(r) != nil, Confirmed(ctxuser(r)), emits Store.Load(_) -> (?u, ?e) :: e == nil && Confirmed(u))
@@ -41,7 +42,8 @@ package confirm
 //@   ensures[C19] registered_after_register: result == nil ==> emits Events.Register("After", EventRegister, ?h) :: fname(h) == "(*Confirm).StartConfirmationWeb"
 //@
 //@ func Middleware#1#1
-//@   property C03 C18
+//@   property C03 C18 C17
+//@   ensures[C17] no_secret_leak: secrets_clean
 //@   ensures[C03] mw_blocks: each Next.ServeHTTP(_, _, _, ?cu) => cu != nil && Confirmed(cu)
 //@   ensures[C03] mw_redirects: (!panics && !emits Next.ServeHTTP(_, _, _)) ==> emits Redirect(?ro) :: ro.Code == 307
 //@   ensures[C18] no_panic: !panics
